@@ -76,7 +76,7 @@ struct Engine {
   template <class V>
   void create(Slot<V> &s) {
     MonScope m;
-    s.raw = malloc(sizeof(V));
+    s.raw = obj_alloc(sizeof(V), alignof(V), alignof(typename V::value_type) > 16);
     memset(s.raw, 0xA5, sizeof(V));
     s.model.clear();
     s.fresh = true;
@@ -92,7 +92,7 @@ struct Engine {
     window([&] { s.obj->~V(); });
     MonScope m;
     memset(s.raw, 0xDD, sizeof(V));
-    free(s.raw);
+    obj_free(s.raw, alignof(typename V::value_type) > 16);
     s.obj = nullptr;
     s.raw = nullptr;
   }
@@ -1312,10 +1312,10 @@ struct Engine {
     if (!amc::is_trivially_relocatable<V>::value) return false;
     MonScope m;
     set_op("RELOCATE", state_class<V>(s.prev), "-", pname);
-    void *nraw = malloc(sizeof(V));
+    void *nraw = obj_alloc(sizeof(V), alignof(V), alignof(typename V::value_type) > 16);
     memcpy(nraw, s.raw, sizeof(V));
     memset(s.raw, 0xDD, sizeof(V));
-    free(s.raw);
+    obj_free(s.raw, alignof(typename V::value_type) > 16);
     s.raw = nraw;
     s.obj = static_cast<V *>(nraw);
     ++s.relocs;
